@@ -65,3 +65,7 @@ TEXT = {'technique': 'model-based + differential property testing (rapid): gener
  'level_note': 'Trusts the layering model in props/c19 (cross-checked against the stdlib template engines). The crash clause relies on the Go '
                "runtime's concurrent-map detector in a child process; a child that neither crashes nor finishes within the watchdog is inconclusive.",
  'design_ref': 'DESIGN.md 4/C19'}
+
+# native coverage-guided campaign over the rapid generator (hx.FuzzRapid), thorough tier only
+CHECK['tiers']['thorough'].append({'test': '^$', 'fuzz': '^FuzzFiles$', 'fuzztime': '90s', 'gomaxprocs': 4, 'timeout': 400})
+TEXT['technique'] += '; thorough adds a native coverage-guided go fuzzing campaign over the same generator (rapid.MakeFuzz)'
